@@ -77,6 +77,8 @@ type world struct {
 	rdRes     *readRes
 	passReads atomic.Bool // reads issued by the checker itself are not scheduled
 	raced     [2]bool     // a flush / compaction swap was let go inside the last DB.Checkpoint call
+	overlapHint bool      // the current CompactPick step asks for a flush to build its table during the compaction's
+	overlaps    int
 	// where the scheduled read of the behaviour is held (Dkv.tla GetHolds / ScanHolds); "between" is the default
 	passBetween atomic.Bool  // this read passes the between-captures gate (it is held somewhere else)
 	snapGid     atomic.Int64 // goroutine of a Get that is to be held inside memtable.List.Get (once)
@@ -89,6 +91,7 @@ type world struct {
 	dropped   map[int]bool // checkpoints the caller gave up
 	known     map[int]bool // checkpoints in this database instance's list
 	fsViol    []string
+	sstBy     map[string]string // table file -> view (database instance) that wrote it
 	skipped   int
 }
 
@@ -294,10 +297,38 @@ func (w *world) bg(action string) error {
 			w.skipped++
 			return nil
 		}
+		overlap := w.overlapHint && w.flushState == "start"
+		var once sync.Once
+		var ovArr *gate.Arrival
+		var ovErr error
+		if overlap {
+			compGid, flushArr := w.compArr.Gid, w.flushArr
+			w.view.Probe = func(op, path string) {
+				if op != "new" || !strings.HasSuffix(path, ".sst") || gate.Goid() != compGid {
+					return
+				}
+				once.Do(func() { // the compaction is creating its first output file: the waiting flush builds its table now
+					flushArr.Release()
+					ovArr, ovErr = w.s.Await(isMain(w, "dkv.flush.swap"), wait)
+				})
+			}
+		}
 		w.compArr.Release()
 		a, err := w.s.Await(func(a *gate.Arrival) bool {
 			return isMain(w, "dkv.compact.swap")(a) || isMain(w, "dkv.compact.done")(a)
 		}, wait)
+		if overlap {
+			w.view.Probe = nil
+			fired := true
+			once.Do(func() { fired = false }) // the compaction created no table
+			if fired {
+				if ovErr != nil {
+					return ovErr
+				}
+				w.flushArr, w.flushState = ovArr, "swap"
+				w.overlaps++
+			}
+		}
 		if err != nil {
 			return err
 		}
@@ -736,6 +767,24 @@ func (w *world) checkHandles(res *mbt.Result, bi, si int) *mbt.Violation {
 // changing overwrite of a file that the saved checkpoint document (restricted
 // to checkpoints whose handle has been returned) references is a violation.
 func (w *world) onFsEvent(e fsx.Event, s *fsx.Store) {
+	// table files are written once: a database instance that writes the same table file twice has two tables (the
+	// first one possibly live or part of a checkpoint being saved) sharing one file, and the first lost its content
+	if strings.HasSuffix(e.Path, ".sst") {
+		if w.sstBy == nil {
+			w.sstBy = map[string]string{}
+		}
+		switch e.Op {
+		case "create":
+			w.sstBy[e.Path] = e.View
+		case "overwrite":
+			if w.sstBy[e.Path] == e.View {
+				w.fsViol = append(w.fsViol, fmt.Sprintf("table file %s is written a second time by the same database instance (%s): the table that was written first lost its file", e.Path, e.View))
+			}
+			w.sstBy[e.Path] = e.View
+		case "delete":
+			delete(w.sstBy, e.Path)
+		}
+	}
 	if e.Op != "delete" && e.Op != "overwrite" {
 		return
 	}
@@ -810,6 +859,7 @@ func replay(bi int, beh []mbt.Step, in *mbt.Input, res *mbt.Result) {
 				return
 			}
 		case "FlushStart", "FlushSwap", "CompactPick", "CompactSwap":
+			w.overlapHint = a == "CompactPick" && st.Bool("overlap")
 			if err := w.bg(a); err != nil {
 				machinery(si, err)
 				return
@@ -1153,6 +1203,7 @@ func replay(bi int, beh []mbt.Step, in *mbt.Input, res *mbt.Result) {
 		return
 	}
 	res.Count("skipped_bg_steps", w.skipped)
+	res.Count("flush_builds_during_compaction_builds", w.overlaps)
 	res.Executed++
 }
 
